@@ -401,6 +401,27 @@ def run_check(mod, tier, seed, replay=None):
         s, nontriv = mod.sig(c, r)
         if nontriv:
             sigs[s] = sigs.get(s, 0) + 1
+    if hasattr(mod, "step_sigs"):
+        sigs = {k: v for k, v in mod.step_sigs(pairs).items()}
+
+    # sub-checks: correspondences of other modules that also decide (part of) this property
+    sub_failing = []
+    sub_info = {}
+    if not replay:
+        for subname in getattr(mod, "SUBCHECKS", []):
+            sub = importlib.import_module("props.%s" % subname)
+            with Lock():
+                make([sub.SPEC_REQ.replace(".", "/") + ".vo", sub.MODEL_REQ.replace(".", "/") + ".vo"])
+            scs = (sub.gen_fault_cases if hasattr(sub, "gen_fault_cases") else sub.gen_cases)(random.Random("%s-%s-%s-%s" % (prop, subname, tier, seed)), tier)
+            srs = run_impl_all(sub, scs)
+            sp = [(c, r) for c, r in zip(scs, srs) if not (isinstance(r, dict) and "harness_error" in r)]
+            st = [sub.to_coq(c, r) for c, r in sp]
+            sb, mb, slog = coq_eval(sub, st, use_model=True)
+            sub_info[subname] = {"cases": len(sp), "impl_vs_spec_disagreements": len(sb), "impl_vs_model_disagreements": len(mb or [])}
+            for i in sb:
+                sub_failing.append((sub, sp[i][0], sp[i][1], st[i]))
+            if mb and not sb:
+                model_bad = (model_bad or []) + [-1]
 
     known = load_known(prop)
     violations = []  # (kind, description, replay-dict)
@@ -426,6 +447,20 @@ def run_check(mod, tier, seed, replay=None):
         failing = [(spairs[i][0], spairs[i][1], sterms[i]) for i in sbad]
 
     rdir = os.path.join(VERIF, "replays")
+    for sub, c, r, term in sub_failing:
+        key = "%s:%s" % (sub.ID, sub.finding_key(c, r))
+        e = match_known(known, key)
+        if e is not None:
+            known_hits.setdefault(e["signature"], (e, c, r))
+            continue
+        h = hashlib.sha1(term.encode()).hexdigest()[:10]
+        path = os.path.join(rdir, "%s-%s-%s.json" % (prop, sub.ID, h))
+        if len([v for v in violations if v[0].startswith(sub.ID + ":")]) < 3:
+            write_json(path, {"property": prop, "kind": "failing-input", "via_correspondence_of": sub.ID, "case": c, "impl_result": r,
+                              "finding_key": key, "coq_case": term, "seed": seed, "tier": tier,
+                              "how_to_replay": "./check %s --replay %s" % (sub.ID, path)})
+            print("VIOLATION property=%s replay=%s" % (prop, path))
+        violations.append((key, c, r, None))
     for c, r, term in failing:
         key = mod.finding_key(c, r)
         e = match_known(known, key)
@@ -437,15 +472,16 @@ def run_check(mod, tier, seed, replay=None):
     for sigk, (e, c, r) in known_hits.items():
         print("KNOWN-FINDING: property=%s %s" % (prop, e["what"]))
     if violations:
+        exit_code = 1
         # smallest first: generators attach a 'size'
-        violations.sort(key=lambda v: (mod.case_size(v[1]) if hasattr(mod, "case_size") else 0, v[0]))
-        if hasattr(mod, "shrink"):
+        violations.sort(key=lambda v: (0 if v[3] is not None else 1, mod.case_size(v[1]) if (hasattr(mod, "case_size") and v[3] is not None) else 0, v[0]))
+        if hasattr(mod, "shrink") and violations[0][3] is not None:
             key, c, r, term = violations[0]
             c2, r2 = shrink(mod, c, r, known)
             violations[0] = (mod.finding_key(c2, r2), c2, r2, mod.to_coq(c2, r2))
         seen = set()
         for key, c, r, term in violations:
-            if key in seen:
+            if key in seen or term is None:
                 continue
             seen.add(key)
             if len(seen) > 5:
@@ -524,6 +560,7 @@ def run_check(mod, tier, seed, replay=None):
                                "evaluated_in": "coqc vm_compute, %d-case shards" % SHARD},
             "input_distribution": mod.distribution(pairs) if hasattr(mod, "distribution") else {},
             "search": {"ran": searched > 0, "inputs": searched},
+            "sub_correspondences": sub_info,
             "translator_failures": tfail,
             "broken_obligations": proof_broken,
             "partial": getattr(mod, "PARTIAL", []),
